@@ -381,10 +381,12 @@ func (sc *Scope) localValue(a *ssa.Alloc) Val {
 	}
 	st := sc.state()
 	if sc.inOld {
-		// old(local) of a parameter cell = entry value
+		// old(...) affects heap dereferences only: a parameter denotes its entry value,
+		// any other local variable its current value (it has no meaningful value at entry)
 		if p, ok := fr.params[a.Comment]; ok {
 			return p
 		}
+		st = sc.cur
 	}
 	if reg.LV != nil {
 		return vc.load(st, reg.LV)
